@@ -160,6 +160,16 @@ impl Bitcask {
         let (keydir, stats, active_fileid) = rebuild_storage(&conf.path)?;
         debug!(?active_fileid, "got new active file ID");
 
+        // The entries that were found are served from now on, and a merge can remove the older
+        // entries that they replace. They may come from appends that were never synchronized,
+        // e.g., when a sync failed or the process was killed, so with the sync strategy "always"
+        // they are made durable first.
+        if let SyncStrategy::Always = conf.sync {
+            for fileid in utils::sorted_fileids(&conf.path)? {
+                fs::File::open(utils::datafile_name(&conf.path, fileid))?.sync_all()?;
+            }
+        }
+
         let ctx = Arc::new(Context {
             conf,
             keydir,
